@@ -596,6 +596,32 @@ theorem request_plain_history_is_stream_history (cl : Option (List Char)) (chunk
     rw [h1, runROps_plain ps _ true _ h2 h3]
 
 open Wz.RB in
+/-- **A short body surfaces as ClientDisconnected at the Request level too**: when the client sent
+fewer bytes than the declared Content-Length, then after *any* history of stream reads and uncached
+`get_data` calls, `request.get_data(cache=False)` raises ClientDisconnected — the glue cannot turn the
+short body into a silently truncated one. (With caching, `request_cached_data_stable` applies: data
+can only have been cached by a `get_data` that returned normally, which for a short body none does.) -/
+theorem request_short_body_disconnect (cl : Option (List Char)) (chunked terminated : Bool)
+    (max : Option Nat) (ri wantForm : Bool) (data : Bytes) (script : List Beh) (n : Nat)
+    (hch : getInputStream cl chunked terminated max true = .limited n false) (hshort : data.length < n)
+    (ps : List Plain) :
+    (runROps (freshReq cl chunked terminated max ri wantForm data script)
+      ((ps ++ [Plain.d]).map Plain.toR)).1.getLast? = some (.error "ClientDisconnected") := by
+  rw [request_plain_history_is_stream_history cl chunked terminated max ri wantForm data script n false hch]
+  rw [List.map_append, runOps_append]
+  have h := short_body_disconnect data script n ri (ps.map Plain.toOp) hshort
+  simp only [List.map_cons, List.map_nil, Plain.toOp, runOps, runOp]
+  rcases hr : readall (finalState (fresh data script n false ri) (List.map Plain.toOp ps)) with ⟨r, s'⟩
+  rw [hr] at h
+  simp only at h
+  subst h
+  simp [single]
+
+open Wz.RB in
+example : (runROps (freshReq (some ['9']) false false none true false [1, 2, 3] [])
+    [.stream (.read 2), .getData false false []]).1 = [.ok [[1, 2]], .error "ClientDisconnected"] := by rfl
+
+open Wz.RB in
 example : (runROps (freshReq (some ['4']) false false none true false [1, 2, 3, 4, 5] [.give 1])
     [.stream (.read 2), .getData false false [], .getData false false []]).1
     = [.ok [[1]], .ok [[2, 3, 4]], .ok [[]]] := by rfl
